@@ -31,7 +31,7 @@ def translate(ctx):
 
 
 def gen(ctx, rng):
-    case = pc.gen_panel_case(rng, models=('Plate', 'PlateW', 'CPanel'), max_mn=ctx.scale(3, 5), y12=False)
+    case = pc.gen_panel_case(rng, models=('Plate', 'PlateW', 'CPanel'), max_mn=ctx.scale(4, 5), y12=False)
     case['flow'] = rng.choice(['x', 'y'])
     for e in ('1t', '2t'):
         case['flags']['w' + e + case['flow']] = 0.
@@ -228,6 +228,46 @@ def second_flow_state(ctx, rng):
     return None, None
 
 
+def flutter_assembly(ctx, rng, flow):
+    """the packaged flutter assembly (compmech.panel.assembly.tstiff2d_1stiff_flutter) with the flow direction it is asked for: the
+    aerodynamic matrix every skin panel contributed (panel.kA, placed at the panel's offsets) is that of a freshly defined panel
+    with the same data and THE ASSEMBLY'S flow direction - single panels are tied to the piston-theory oracle by run_case"""
+    from compmech.panel import Panel
+    from compmech.panel.assembly import tstiff2d_1stiff_flutter
+    kw = dict(a=rng.uniform(1.5, 3.), b=1., ys=rng.uniform(0.4, 0.6), bb=0.2, bf=0.1, defect_a=rng.choice([0.1, 0.25]), mu=1.3e3, plyt=0.125e-3,
+              laminaprop=(142.5e9, 8.7e9, 0.28, 5.1e9, 5.1e9, 5.1e9), stack_skin=[0, 45, -45, 90, -45, 45, 0], stack_base=[0, 90, 0] * 2,
+              stack_flange=[0, 90, 0] * 3, m=4, n=3, mb=3, nb=3, mf=3, nf=3, air_speed=rng.uniform(500., 900.), rho_air=rng.uniform(0.3, 1.3),
+              Mach=rng.choice([1.5, 2., 3.]), speed_sound=343., flow=flow, run_static_case=False)
+    try:
+        assy = pc.quiet(tstiff2d_1stiff_flutter, **kw)[0]
+    except Exception as e:
+        return kw, 'tstiff2d_1stiff_flutter(flow=%r) raised %s: %s' % (flow, type(e).__name__, str(e)[:160])
+    size = assy.get_size()
+    skin = [q for q in assy.panels if q.group == 'skin']
+    if len(skin) != 9:
+        return kw, 'the flutter assembly has %d skin panels' % len(skin)
+    FLAGS = [f + e + d for f in 'uvw' for e in ('1t', '1r', '2t', '2r') for d in 'xy']
+    for k, q in enumerate(skin):
+        if getattr(q, 'kA', None) is None:
+            return kw, 'skin panel %d of the flutter assembly carries no aerodynamic matrix' % (k + 1)
+        f = Panel(a=q.a, b=q.b, r=q.r, m=q.m, n=q.n, plyt=q.plyt, stack=list(q.stack), laminaprop=q.laminaprop, mu=q.mu,
+                  rho_air=kw['rho_air'], speed_sound=kw['speed_sound'], Mach=kw['Mach'], V=kw['air_speed'], flow=flow)
+        f.model = q.model
+        for fl in FLAGS:
+            setattr(f, fl, getattr(q, fl))
+        want = pc.quiet(f.calc_kA, size=size, row0=q.row_start, col0=q.col_start, silent=True, finalize=False).toarray()
+        got = q.kA.toarray()
+        d = pc.rel_diff(got, want)
+        if d > 1e-12:
+            other = 'y' if flow == 'x' else 'x'
+            f.flow = other
+            alt = pc.quiet(f.calc_kA, size=size, row0=q.row_start, col0=q.col_start, silent=True, finalize=False).toarray()
+            hint = ' (it is the flow-%s matrix)' % other if pc.rel_diff(got, alt) < 1e-12 else ''
+            return dict(kw, panel=k + 1), ('tstiff2d_1stiff_flutter(flow=%r): the aerodynamic matrix of skin panel %d differs from that of a freshly '
+                                           'defined panel with the same data and flow=%r: rel %.3e%s' % (flow, k + 1, flow, d, hint))
+    return None, None
+
+
 def correspondence(ctx):
     ir = pc.translated(ctx)
     rng = ctx.rng
@@ -278,6 +318,12 @@ def correspondence(ctx):
         ctx.evaluations += 1
         if bad:
             ctx.violation('C19 fails on the implementation: ' + bad, dict(case=c, derived='second flow state'))
+            return
+    for flow in (['y'] if ctx.tier == 'quick' else ['y', 'x', 'y']):
+        c, bad = flutter_assembly(ctx, rng, flow)
+        ctx.evaluations += 1
+        if bad:
+            ctx.violation('C19 fails on the implementation: ' + bad, dict(case=c, derived='flutter assembly'))
             return
     def aero(p, c):
         p.beta, p.gamma, p.flow = 7.5, (0.8 if c['r'] else None), 'x'
